@@ -105,6 +105,9 @@ def trace_validation(ctx, rnd):
     for i in range(n):
         U = rnd.choice([2, 4, 8, 16])
         smax = {2: 12, 4: 24, 8: 40, 16: 60}[U]
+        if i % 7 == 0:
+            # shapes smaller than a pixel, anywhere inside their pixel: the box is still the pixels the extent touches, nothing more
+            U, smax = 16, 10
         if rnd.random() < 0.75:
             s = geomgen.simple(rnd, cmax=2 * U, smax=smax, small_dirs=(U > 4))
         else:
